@@ -28,14 +28,14 @@ type ReqSpec struct {
 	Header map[string][]string `json:"header,omitempty"`
 	Host   string              `json:"host,omitempty"`
 
-	CancelBefore bool          `json:"cancel_before,omitempty"` // context already cancelled
-	CancelAfter  bool          `json:"cancel_after,omitempty"`  // cancel right after RoundTrip returned
-	Deadline     time.Duration `json:"deadline,omitempty"`      // >0: context deadline from now
-	NoWait       bool          `json:"no_wait,omitempty"`       // do not wait for quiescence
-	Reuse        bool          `json:"reuse,omitempty"`         // caller reuses (mutates) its request object once the body is closed
-	ReuseHeader  map[string][]string `json:"reuse_header,omitempty"` // header fields the caller sets on its request object once the body is closed
-	KeepBody     bool          `json:"-"`                       // leave the body unread (Mode R callers)
-	LateBody     bool          `json:"late_body,omitempty"`     // read the body only after background work triggered by the request has quiesced
+	CancelBefore bool                `json:"cancel_before,omitempty"` // context already cancelled
+	CancelAfter  bool                `json:"cancel_after,omitempty"`  // cancel right after RoundTrip returned
+	Deadline     time.Duration       `json:"deadline,omitempty"`      // >0: context deadline from now
+	NoWait       bool                `json:"no_wait,omitempty"`       // do not wait for quiescence
+	Reuse        bool                `json:"reuse,omitempty"`         // caller reuses (mutates) its request object once the body is closed
+	ReuseHeader  map[string][]string `json:"reuse_header,omitempty"`  // header fields the caller sets on its request object once the body is closed
+	KeepBody     bool                `json:"-"`                       // leave the body unread (Mode R callers)
+	LateBody     bool                `json:"late_body,omitempty"`     // read the body only after background work triggered by the request has quiesced
 }
 
 // ReqSnap is a deep snapshot of the caller's request object.
